@@ -19,7 +19,8 @@ EXPLANATION = (
     'the token alphabet taken from the lexer table: every inner ";" must see level >= 1 and the ";" after the final END must '
     'see level <= 0. This is a protocol check over the extracted table on a finite alphabet; the splitter is not run. R17.2: '
     'compound keywords the lexer fuses (END IF, END LOOP, ...) agree with the closers the table handles (vocabulary '
-    'shadowing). R17.4: per-statement state is completely reset. Not decided: unbounded nesting depth (pairs are checked) '
+    'shadowing). R17.4: per-statement state is completely reset. R17.5: the driver loop classifies each token exactly once, after the '
+    'yield/_reset() of the previous statement, and adds the delta to self.level before the append. Not decided: unbounded nesting depth (pairs are checked) '
     'and bodies that use keywords as identifiers.')
 
 SPLITTER = RS.SPLITTER
